@@ -149,11 +149,11 @@ theorem request_view (s : EState) (f : Nat) (j : Option String) (hst : s.state =
     (hc : s.msgCache.isSome = true) :
     view (applyAction s (.suspend f none none j)) =
       { view s with suspReqs := s.suspReqs ++ [{ fut := f, pre := none, post := none, just := j }],
-                    planStack := Gen.list [startMsg s.suspReqs.length] :: s.planStack,
+                    planStack := Gen.fresh [startMsg s.suspReqs.length] :: s.planStack,
                     respStack := .none :: s.respStack, state := .suspending, cancelPending := true } := by
   have hnone : s.msgCache.isNone = false := by cases h : s.msgCache <;> simp_all
   let X : EState := { s with suspReqs := s.suspReqs ++ [{ fut := f, pre := none, post := none, just := j }],
-                             planStack := Gen.list [startMsg s.suspReqs.length] :: s.planStack,
+                             planStack := Gen.fresh [startMsg s.suspReqs.length] :: s.planStack,
                              respStack := .none :: s.respStack }
   have hal : (Src.transitions X.state).contains .suspending = true := by
     show (Src.transitions s.state).contains .suspending = true
@@ -223,12 +223,12 @@ theorem contFlow_loopTop (n : Nat) (s : EState) : contFlow n (.loopTop s) = runL
 theorem start_runs (n : Nat) (s : EState) (idx : Nat) (rq : SuspReq) (rs : List Resp) (gs : List Gen)
     (hpc : s.pc = .loopSleep) (hcp : s.cancelPending = false) (hst : s.state = .running) (hp : s.permit = true)
     (hs : s.stashed = none) (he : s.exceptionSlot = none) (hR : s.respStack = .none :: rs)
-    (hP : s.planStack = Gen.list [startMsg idx] :: gs) (hq : s.suspReqs[idx]? = some rq) :
+    (hP : s.planStack = Gen.fresh [startMsg idx] :: gs) (hq : s.suspReqs[idx]? = some rq) :
     ∃ was rw, view (advance (n + 1) s) =
       { view s with respStack := .none :: .none :: rs, planStack := suspHelper rq was rw :: Gen.list [] :: gs,
                     resp := none, msgs := s.msgs ++ [startMsg idx], cacheSome := true } := by
   rw [advance_loopSleep _ s hpc hcp,
-    afterSleep_send s .none rs (Gen.list [startMsg idx]) (Gen.list []) gs (startMsg idx) hR hP he hs rfl rfl rfl]
+    afterSleep_send s .none rs (Gen.fresh [startMsg idx]) (Gen.list []) gs (startMsg idx) hR hP he hs rfl rfl rfl]
   let s1 : EState := { s with respStack := rs, resp := some .none, planStack := Gen.list [] :: gs }
   let s2 : EState := noteMsg s1 (startMsg idx)
   have hv2 : view s2 = { view s1 with msgs := s.msgs ++ [startMsg idx], stashed := none } := noteMsg_view s1 _
@@ -362,7 +362,7 @@ theorem request_view_V (s : EState) (f : Nat) (j : Option String) (V : View) (hv
     (hst : V.state = .running) (hc : V.cacheSome = true) :
     view (applyAction s (.suspend f none none j)) =
       { V with suspReqs := V.suspReqs ++ [{ fut := f, pre := none, post := none, just := j }],
-               planStack := Gen.list [startMsg V.suspReqs.length] :: V.planStack,
+               planStack := Gen.fresh [startMsg V.suspReqs.length] :: V.planStack,
                respStack := .none :: V.respStack, state := .suspending, cancelPending := true } := by
   subst hv; exact request_view s f j hst hc
 
@@ -377,7 +377,7 @@ theorem cancel_lands_V (n : Nat) (s : EState) (f : Nat) (r0 : Resp) (V : View) (
 theorem start_runs_V (n : Nat) (s : EState) (idx : Nat) (rq : SuspReq) (rs : List Resp) (gs : List Gen) (V : View)
     (hv : view s = V) (hpc : V.pc = .loopSleep) (hcp : V.cancelPending = false) (hst : V.state = .running)
     (hp : V.permit = true) (hs : V.stashed = none) (he : V.exceptionSlot = none) (hR : V.respStack = .none :: rs)
-    (hP : V.planStack = Gen.list [startMsg idx] :: gs) (hq : V.suspReqs[idx]? = some rq) :
+    (hP : V.planStack = Gen.fresh [startMsg idx] :: gs) (hq : V.suspReqs[idx]? = some rq) :
     ∃ was rw, view (advance (n + 1) s) =
       { V with respStack := .none :: .none :: rs, planStack := suspHelper rq was rw :: Gen.list [] :: gs,
                resp := none, msgs := V.msgs ++ [startMsg idx], cacheSome := true } := by
